@@ -1,12 +1,23 @@
 (** Pinned statements of the C16 property theorems: compiled on every check, so a theorem
     cannot be weakened silently. *)
 From V Require Import Base.Util Gql.Ast Writer.Wop C16.Model C16.Spec
-  C16.ProofsTemplate C16.ProofsString C16.ProofsStrip C16.Proofs C16.Properties.
+  C16.ProofsTemplate C16.ProofsString C16.ProofsStrip C16.ProofsDoc C16.ProofsReindent C16.Proofs C16.Properties.
 Local Open Scope N_scope.
 
 Check (C16_template_roundtrip : forall ops,
   no_cr_ops ops = true -> no_split_dollar ops = true ->
   eval_template (js_run ops) = Some (LF :: just_run ops)).
+Check (C16_tsdoc_template_roundtrip : forall d,
+  tsdoc_ok d = true -> eval_template (js_run (print_tsdoc d)) = Some (LF :: just_run (print_tsdoc d))).
+Check (C16_tsdoc_ext_template_roundtrip : forall d,
+  tsdoc_ok d = true -> eval_template (js_run (print_tsdoc_ext d)) = Some (LF :: just_run (print_tsdoc_ext d))).
+Check (C16_opdoc_template_roundtrip : forall d,
+  opdoc_ok d = true -> eval_template (js_run (print_opdoc d)) = Some (LF :: just_run (print_opdoc d))).
+Check (C16_server_module_value : forall model_plugin d,
+  directives_placed model_plugin d = true ->
+  tsdoc_ok (spec_server_schema model_plugin d) = true ->
+  module_value (server_module model_plugin d)
+  = Some (LF :: just_run (print_tsdoc (spec_server_schema model_plugin d)))).
 Check (C16_print_string_lex_partial : forall x rest,
   plain x = true -> starts_quote rest = false ->
   exists t, lex_string (print_string x ++ rest) = Some (t, rest) /\ value_nitrogql t = x).
@@ -18,6 +29,12 @@ Check (C16_strip_only_nitrogql : forall model_plugin d,
   directives_placed model_plugin d = true ->
   server_schema model_plugin d = spec_server_schema model_plugin d).
 Check (C16_remove_builtins_idempotent : forall d, remove_builtins (remove_builtins d) = remove_builtins d).
+Check (C16_reindent_preserves_spec_value : forall n l0 rest,
+  forallb line_ok (l0 :: rest) = true ->
+  block_string_value (join_lf (l0 :: indent_lines n rest)) = block_string_value (join_lf (l0 :: rest))).
+Check (C16_write_chunk_lines : forall c0 l0 rest ind,
+  fst (write_lines (fun l => l) true ((c0 :: l0) :: rest) ind false)
+  = (c0 :: l0) ++ flat_map (fun l => LF :: indent_line (N.to_nat ind) l) rest).
 Check (C16_print_string_quote_refuted :
   exists x, is_multiline x = false /\ reads_back x = false /\ reads_back_spec x = false).
 Check (C16_print_string_backslash_refuted :
@@ -47,10 +64,16 @@ Check (C16_extend_union_refuted :
   just_run (print_tsdoc_ext [TSTypeExt (TEUnion pos0 (mkId (s "U") pos0) [dir_a] [])])
   = s "extend union U @a =" ++ [LF; LF]).
 Print Assumptions C16_template_roundtrip.
+Print Assumptions C16_tsdoc_template_roundtrip.
+Print Assumptions C16_tsdoc_ext_template_roundtrip.
+Print Assumptions C16_opdoc_template_roundtrip.
+Print Assumptions C16_server_module_value.
 Print Assumptions C16_print_string_lex_partial.
 Print Assumptions C16_print_string_lex_spec.
 Print Assumptions C16_strip_only_nitrogql.
 Print Assumptions C16_remove_builtins_idempotent.
+Print Assumptions C16_reindent_preserves_spec_value.
+Print Assumptions C16_write_chunk_lines.
 Print Assumptions C16_print_string_quote_refuted.
 Print Assumptions C16_print_string_backslash_refuted.
 Print Assumptions C16_print_string_block_quote_refuted.
